@@ -1,7 +1,7 @@
 """C19 -- all filesystem backends resolve names alike; chains honour priority.
 
-Proof tier: the lookup key of every backend (_file_exists / _get_file of the zip and VPK backends, _clean_path of the
-in-memory one) is proved to be fold(name with '\\' -> '/') -- the single normal form of the specification -- by
+Proof tier: the lookup key of every backend (_file_exists / _get_file of the zip, VPK and in-memory backends, the
+latter through the real _clean_path with os.path.normpath uninterpreted) is proved to be fold(name with '\\' -> '/') -- the single normal form of the specification -- by
 symbolic execution against dictionaries with symbolic key sets; FileSystemChain._get_file is proved to return the
 first member (in order) whose lookup succeeds, addressed through its prefix.
 Bounded tier: differential test of the four backends and of chains on generated file sets.
@@ -25,12 +25,15 @@ PROP = 'C19'
 LEVEL = 'other'
 M = 'filesys'
 EXPLANATION = ('Lookup keys of the zip, VPK and in-memory backends proved equal to one normal form (case folded, '
-               'backslashes to slashes) for every name; FileSystemChain._get_file proved to pick the first member that '
+               'backslashes to slashes; the in-memory one after os.path.normpath, kept uninterpreted) for every name, '
+               'the in-memory _get_file proved to hand back the stored entry of exactly that key; FileSystemChain._get_file proved to pick the first member that '
                'has the (prefix-joined) name. Folder walks, byte equality between backends, de-duplicated chain walks '
                'and subfolder-relative naming are decided by the bounded differential stand-in over generated file sets.')
 TRUSTED = ['str.casefold as an uninterpreted idempotent function', 'zipfile / VPK container I/O (C13)',
            'os.path.normpath on relative slash-separated names without "." / ".." components is the identity up to '
-           'repeated separators (bounded tier uses such names)']
+           'repeated separators (bounded tier uses such names)',
+           'VirtualFileSystem.__init__ builds the table with the same _clean_path (one comprehension; covered by the '
+           'bounded differential, not by a contract)']
 UNVERIFIED = ['walk_folder of every backend (bounded only)', 'host file-system case sensitivity for RawFileSystem']
 
 from pyvc.builtins_model import fold_fn, replace_all   # noqa: E402
@@ -143,6 +146,89 @@ def vpk_raised_only_when_absent(name, table):
 
 
 # ------------------------------------------------------------------------------------------------ chain priority
+# ---- in-memory backend: key = fold(normpath(name) with '\\' -> '/'); os.path.normpath stays uninterpreted here, so the
+# proof says "the same key function for the existence test, the lookup and (by the constructor scan below) the table",
+# and the agreement of normpath with the identity on the names of the property is the stated assumption in TRUSTED.
+NORMPATH = UninterpFn('normpath', z3.StringSort(), z3.StringSort())
+_PAIR, _mk_pair, (_pair_name, _pair_data) = z3.TupleSort('virt_entry', [z3.StringSort(), z3.IntSort()])
+
+
+def _virt_os_model(I):
+    def attr(I_, name):
+        from pyvc.symexec import _MISSING, ModuleVal
+        return ModuleVal('os.path!virt') if name == 'path' else _MISSING
+    return attr
+
+
+def _virt_ospath_model(I):
+    def attr(I_, name):
+        from pyvc.symexec import _MISSING
+        if name == 'normpath':
+            return Builtin('os.path.normpath', lambda p: NORMPATH.decl(to_z3(p)))
+        return _MISSING
+    return attr
+
+
+@native
+def virt_norm(I, name):
+    """fold(normpath(name).replace('\\', '/'))"""
+    return fold_fn()(replace_all(NORMPATH.decl(to_z3(name)), '\\', '/'))
+
+
+def _virtfs(h):
+    h.I.module_models = {'os': _virt_os_model(h.I), 'os.path!virt': _virt_ospath_model(h.I)}
+    table = h.dict_of('mapping', z3.StringSort(), _PAIR)
+    return Obj('VirtualFileSystem', dict(_mapping=table, path='<virtual>', bytes_encoding='utf8'), module=M), table
+
+
+virt_exists = REG.add(Contract(f'{M}:VirtualFileSystem._file_exists', PROP, inline=('VirtualFileSystem._clean_path',)))
+
+
+@virt_exists.setup
+def _(h):
+    fs, table = _virtfs(h)
+    return {'args': [fs, h.str('name')], 'ghost': dict(table=table)}
+
+
+@virt_exists.ensures
+def virt_exists_iff_normal_form_is_a_key(name, result, table):
+    return iff(result, has(table, virt_norm(name)))
+
+
+virt_get = REG.add(Contract(f'{M}:VirtualFileSystem._get_file', PROP,
+                            inline=('File.__init__', 'VirtualFileSystem._clean_path')))
+virt_get.raises('FileNotFoundError')
+
+
+@virt_get.setup
+def _(h):
+    fs, table = _virtfs(h)
+    return {'args': [fs, h.str('name')], 'ghost': dict(table=table)}
+
+
+@native
+def entry_name(I, d, key):
+    return _pair_name(z3.Select(d.expr[1], to_z3(key)))
+
+
+@native
+def file_path(I, f):
+    return f.fields.get('path')
+
+
+@virt_get.ensures
+def virt_returns_the_entry_under_the_normal_form(name, result, table):
+    """the File handed back names the stored entry (its data field is the stored spelling, which open_bin/open_str
+    clean again to the same key) and belongs to this filesystem"""
+    return (has(table, virt_norm(name)) and file_data(result) == entry_name(table, virt_norm(name))
+            and file_path(result) == entry_name(table, virt_norm(name)))
+
+
+@virt_get.on_raise('FileNotFoundError')
+def virt_raised_only_when_absent(name, table):
+    return not has(table, virt_norm(name))
+
+
 chain_get = REG.add(Contract(f'{M}:FileSystemChain._get_file', PROP, inline=('File.__init__',)))
 chain_get.raises('FileNotFoundError')
 JOINP = UninterpFn('os_path_join', z3.StringSort(), z3.StringSort(), z3.StringSort())
@@ -252,7 +338,7 @@ def priority_members_are_searched_first_others_last_and_nothing_is_dropped(CHAIN
     return search_order_is(CHAIN, NEW, OLD0, OLD1) if PRIO else search_order_is(CHAIN, OLD0, OLD1, NEW)
 
 
-PROOFS = [zip_exists, zip_get, vpk_exists, vpk_get, chain_get, chain_add]
+PROOFS = [zip_exists, zip_get, vpk_exists, vpk_get, virt_exists, virt_get, chain_get, chain_add]
 
 
 # ------------------------------------------------------------------------------------------------ bounded differential
@@ -588,6 +674,18 @@ MUTATIONS = [
     dict(name='vpk_exists_no_slash', file='filesys.py',
          old="        return name.casefold().replace('\\\\', '/') in self._name_to_file", new="        return name.casefold() in self._name_to_file",
          expect='VPKFileSystem._file_exists'),
+    dict(name='virtual_exists_skips_clean_path', file='filesys.py',
+         old="        return self._clean_path(name) in self._mapping",
+         new="        return name.replace('\\\\', '/').casefold() in self._mapping",
+         expect='VirtualFileSystem._file_exists'),
+    dict(name='virtual_get_looks_up_raw_name', file='filesys.py',
+         old="        try:\n            filename, data = self._mapping[self._clean_path(name)]\n        except KeyError:\n            raise FileNotFoundError(name) from None\n        return File(self, filename, filename)",
+         new="        try:\n            filename, data = self._mapping[name.casefold()]\n        except KeyError:\n            raise FileNotFoundError(name) from None\n        return File(self, filename, filename)",
+         expect='VirtualFileSystem._get_file'),
+    dict(name='virtual_get_names_the_request_not_the_entry', file='filesys.py',
+         old="            raise FileNotFoundError(name) from None\n        return File(self, filename, filename)",
+         new="            raise FileNotFoundError(name) from None\n        return File(self, name, name)",
+         expect='VirtualFileSystem._get_file'),
 ]
 HARMLESS = [
     dict(name='add_sys_moves_a_present_member_instead_of_listing_it_twice', file='filesys.py',
